@@ -22,6 +22,7 @@ func ruleC05(r *Report) {
 	r.Rule("C05.clock", "the request's validation time is taken from the library clock when the request object is created", 1)
 	r.Rule("C05.acs-provenance", "every store to IdpAuthnRequest.ACSEndpoint / SPSSODescriptor / ServiceProviderMetadata stores (a copy of) an element of the registered provider's metadata returned by the registry, never a value built from the request", 6)
 	r.Rule("C05.acs-guards", "each endpoint store is guarded by exactly one of: requested index matches; requested URL matches; no index and no URL requested and endpoint is default with a browser binding; no index and no URL and browser binding; (IdP-initiated) POST binding; the selection function succeeds only through a store", 6)
+	r.Rule("C05.route", "the response is addressed (bearer Recipient, Response Destination, form action) to the selected registered endpoint's Location, not to a location taken from the request", 3)
 	r.Rule("C05.inflate", "GET-binding requests are inflated only through the bounded reader", 1)
 	r.Rule("C05.nil", "no dereference of an absent optional request element in the validator", 1)
 
@@ -138,6 +139,7 @@ func ruleC05(r *Report) {
 	}
 
 	checkACS(r, sc)
+	checkRouting(r, p, "C05.route")
 	safely(r, func() { checkInflate(r, a, sc, "C05.inflate") })
 	nr := NewNilRules(r, NewAnalysis(p), sc)
 	nr.Check([]*ssa.Function{validate}, "C05.nil", "")
